@@ -64,7 +64,8 @@ def op_signature(o):
         fn = _resolve(o)
         sig = inspect.signature(fn)
         return {"params": [[p.name, str(p.kind), None if p.default is inspect._empty else repr(p.default)]
-                           for p in sig.parameters.values()], "doc": inspect.getdoc(fn)}
+                           for p in sig.parameters.values()], "doc": inspect.getdoc(fn),
+                "coroutine": bool(inspect.iscoroutinefunction(fn))}
     except BaseException as e:  # noqa
         return {"raised": exc_name(e), "msg": str(e)[:300]}
 
